@@ -186,6 +186,15 @@ func raceParent(prop, tier string, scs []*scenario, runs int) int {
 				a, b = b, a
 			}
 			repo[a+"  <->  "+b]++
+			if prop == "C20" && strings.Contains(a, "/peers.go:") && strings.Contains(b, "/peers.go:") {
+				// an unsynchronised access pair inside the peer book itself: the exploration under
+				// the scheduler assumes the book's state is only touched under its lock (it switches
+				// at synchronisation operations), and a lost update on a score or a torn list is
+				// exactly what the property excludes - the race detector's report is conclusive
+				fatal = append(fatal, mc.Violation{Prop: prop, Clause: "unsynchronised-peer-book-access", Fingerprint: "unsynchronised-peer-book-access|" + a + "|" + b,
+					Detail:  fmt.Sprintf("scenario %s, free-running under the race detector: two goroutines access the peer book's state without synchronisation (%s <-> %s): concurrent callers can lose an update", r.name, a, b),
+					History: map[string]any{"scenario": r.name, "race_report": rep.Text}})
+			}
 			if rep.Map {
 				// the one kind of race that is a verdict by itself: concurrent access to a Go map is a
 				// fatal runtime error ("concurrent map read and map write"), the process dies
